@@ -290,6 +290,11 @@ pub mod serde_json {
     #[verifier::external]
     impl core::fmt::Display for SerdeError { fn fmt(&self, _f: &mut core::fmt::Formatter<'_>) -> core::fmt::Result { unimplemented!() } }
     pub trait FromJ: Sized { spec fn from_j(j: J) -> Option<Self>; }
+    pub trait FromBytes: Sized { spec fn parsed_as(b: Seq<u8>, x: Self) -> bool; spec fn parses(b: Seq<u8>) -> bool; }
+    #[verifier::external_body]
+    pub fn from_slice<T: FromBytes>(v: &[u8]) -> (r: Result<T, SerdeError>)
+        ensures r is Ok <==> T::parses(v@), r is Ok ==> T::parsed_as(v@, r->Ok_0),
+    { unimplemented!() }
     #[verifier::external_body]
     pub fn from_value<T: FromJ>(v: Value) -> (r: Result<T, SerdeError>)
         ensures match r { Ok(x) => T::from_j(crate::shim::jv(v)) == Some(x), Err(_) => T::from_j(crate::shim::jv(v)) is None }
